@@ -57,6 +57,8 @@ pub struct VerifSearch {
     pub tt_returned_same: u64,
     /// when Some: (position, side to move in check, moves examined) of every quiescence node
     pub qlog: Option<Vec<(Board, bool, Vec<Move>)>>,
+    /// when Some: every (position, move) pair the quiescence search actually recursed into
+    pub qexamined: Option<Vec<(Board, Move)>>,
 }
 
 impl Searcher {
@@ -287,6 +289,11 @@ impl Searcher {
         for mv in moves {
             if self.timer.should_stop() {
                 break;
+            }
+
+            #[cfg(flounder_verif)]
+            if let Some(log) = self.verif.qexamined.as_mut() {
+                log.push((*board, mv));
             }
 
             let next_position = board.clone_with_move(&mv);
